@@ -28,10 +28,14 @@ PROPS = {
                      "Rust integer primitives (from_le_bytes, wrapping_sub, trailing_zeros, `as` casts, i32 shifts) behave as documented",
                      "io::Write::write_all on Vec / the recording writer delivers each buffer whole",
                      "the build uses fast_arithmetic=\"64\" (64-bit Chunk), as on the checked platform"],
-        partial=["the decode side (c05_decode_spec, c05_roundtrip, c05_borrowed, c05_bytes_target, c05_str_source_utf8) is provided "
-                 "by the lead's byte-step parser machine and is not part of this branch; here: serializer escaping "
-                 "(c05_escape_table, c05_escape_spec, c05_escape_buffers_utf8_cut), decode_four_hex_digits (c05_hex_tables, "
-                 "c05_hex4_spec) and the SWAR scanner (c05_swar_first_escape, c05_swar_in_bounds, c05_first_escape_char)"],
+        partial=["decode side: c05_decode_spec / c05_decode_reject (a well-formed literal parses to String(s) iff its surrogate "
+                 "escapes are paired, its RFC 8259 decoding is s and - on byte sources - s is valid UTF-8; rejected otherwise), "
+                 "c05_roundtrip / c05_roundtrip_written (parse(escape(s)) = s from every source) and c05_str_source_utf8 (the &str "
+                 "source returns valid UTF-8 on valid UTF-8 input) are theorems over the byte-step parser machine, obtained from "
+                 "C01/C02; c05_borrowed and c05_bytes_target (typed targets) are not part of this check; also here: serializer "
+                 "escaping (c05_escape_table, c05_escape_spec, c05_escape_buffers_utf8_cut), decode_four_hex_digits "
+                 "(c05_hex_tables, c05_hex4_spec) and the SWAR scanner (c05_swar_first_escape, c05_swar_in_bounds, "
+                 "c05_first_escape_char)"],
         technique="Lean 4 theorems over all byte strings / all 2^32 hex groups / all slices and start indices; ESCAPE, HEX0/HEX1 "
                   "pieces and SWAR constants regenerated from source each run; bv_decide for the 64-bit chunk facts; differential "
                   "run of escaping, \\u decoding and the scanner against the crate",
@@ -68,11 +72,11 @@ PROPS = {
         assumptions=["ExtOK: ext.itoa n = Spec.Number.decimal n; finite floats: Grammar.IsNumber (ext.ryu64 b) / (ext.ryu32 b)",
                      "programs obey the serde contract on length hints (None or Some(exact)); type names are not the private "
                      "$serde_json::private::Number / RawValue tokens (feature-gated special cases, out of scope except Number's own impl)",
-                     "collect_str's Display writes its text in one write_str call (buffer-level statements only)"],
+                     "collect_str's Display writes its text in one write_str call (buffer-level statements only)",
+                     "c03_utf8: the program's strings are UTF-8 (SVal.utf8OK: every &str payload valid, every char a scalar value — what "
+                     "Rust's types guarantee) and the pretty indent string is valid UTF-8"],
         partial=["c03_display_partial: Display/{:#} are the two serializers by definition in the model; the fmt adapter is covered by "
-                 "the correspondence op `disp` only",
-                 "c03_utf8_partial: proved per string (every buffer of format_escaped_str is ASCII or a fragment cut at ASCII bytes); "
-                 "lift to whole programs and a ValidUtf8 conclusion pending the shared Spec.Utf8"],
+                 "the correspondence op `disp` only"],
         technique="Lean 4 theorems over all serializer programs: the transcription of Serializer/Compound/MapKeySerializer with both "
                   "Formatters (exact write_all buffer lists, State / current_indent / has_value bookkeeping) refines a structural "
                   "printer of the data-model image; the printer's output is derivable in the RFC 8259 grammar and denotes the image; "
@@ -81,13 +85,17 @@ PROPS = {
                    "c03_no_underflow, c03_recognise_sound) state for every serializer program with exact-or-absent length hints and every indent string "
                    "that the modelled serializer either fails exactly when a map key is not string-like (same error class) or emits "
                    "buffers whose concatenation equals the structural compact/pretty layout of the program's data-model image, which "
-                   "is derivable in the RFC 8259 grammar and denotes that image; hints do not change the buffers. The byte strings "
+                   "is derivable in the RFC 8259 grammar and denotes that image; hints do not change the buffers; and (c03_utf8, with the "
+                   "per-string form c03_utf8_fragments) for every program whose strings are UTF-8 and either formatter (pretty: any "
+                   "UTF-8 indent) every single buffer handed to the writer, and the whole output, is valid UTF-8 (Spec.Utf8.validUtf8): "
+                   "formatter literals ASCII by evaluation of the extracted constants, itoa/ryu text ASCII because it is a number, "
+                   "string buffers cut only at ASCII bytes. The byte strings "
                    "written by Formatter/PrettyFormatter are re-extracted from src/ser.rs on every run and the model is compared with "
                    "the real crate buffer by buffer on generated programs in four feature configurations, the crate's bytes being "
                    "re-parsed by an independent recogniser and compared with the image.",
         level_note="Trusted: Lean kernel + propext/Classical.choice/Quot.sound; extract.py; harness/driver comparison; itoa/ryu as "
                    "assumed parameters; serde default methods by documented semantics. Partial: Display adapter (correspondence "
-                   "only), UTF-8 validity (per string only).",
+                   "only).",
     ),
     "C17": dict(
         lean_targets=["SJ.Props.C17", "SJ.Audit.C17"],
@@ -133,28 +141,110 @@ PROPS = {
                    "(the theorem is about hasher input; the harness checks equal input => equal DefaultHasher output). "
                    "arbitrary_precision numbers are modelled (string equality) but not exercised (configs d, po).",
     ),
+    "C08": dict(
+        lean_targets=["SJ.Props.C08", "SJ.Props.C08Parser", "SJ.Audit.C08"],
+        configs=dict(quick=["d"], thorough=["d", "po"]),
+        gen_keys=["pow10.", "Pow10"],
+        rule="fixed corpus of range-limit, sign, u64/i64-boundary and exponent-overflow literals; every power of ten "
+             "1e-400..1e400 in every spelling; random mantissas of 1-40 digits x exponents in +-400 in every spelling "
+             "(integer part only, fraction only, split, leading/trailing zeros, e/E, +/-/none, leading zeros in the "
+             "exponent, no exponent at all); shortest ({:e}) and Display representations of f64 values for every binary "
+             "exponent field 0..2046; the 15-digit / exponent-22 exactness frontier (1..17 digits x net exponents "
+             "-25..25) densely; +-120 (thorough +-600) last-place neighbourhoods of 1e308, f64::MAX, 2^1024, the rounding "
+             "threshold, f64::MIN_POSITIVE, 5e-324 and 2^-1075 at 17/19/20/22 digits; u64/i64 boundaries, long integers "
+             "(20-330 digits), integers with more than 24/53 significant bits (f32 target); exponents around and beyond "
+             "i32. Every literal goes through from_str, from_slice, from_reader and Value::as_f64 (f64) and the three "
+             "sources for f32. A case is non-trivial when the literal leaves the u64/i64 integer path (fraction, "
+             "exponent, more than 19 digits, -0); distinct = distinct case lines.",
+        trusted_base=[KERNEL, TIE,
+                      "rustc evaluates the float literals 1e0..1e308 by correct rounding; the hardware f64 *, / and the "
+                      "casts u64/i64 -> f64, f64 -> f32, u64/i64 -> f32 are IEEE-754 round-to-nearest-even (modelled as "
+                      "'exact result, rounded once'; confirmed bit-for-bit by the correspondence run)",
+                      "serde's f64/f32 primitive visitors (visit_u64/visit_i64/visit_f64 = `as` casts) and "
+                      "Number::as_f64 modelled by their source"],
+        assumptions=["IEEE-754 conformance of rustc constant evaluation and of the target's f64 multiply/divide/convert",
+                     "i32 exponent arithmetic does not wrap: literals shorter than 2^30 digits"],
+        partial=["c08_within_5ulp_partial: proved for one table operation (|exponent| <= 308; for divisions exact value >= "
+                 "2^-1021); missing: the `f /= 1e308` stepping below 1e-308, subnormal results, and the lift to literals "
+                 "whose digits beyond u64 are dropped - covered by the exact-rational oracle sweep only",
+                 "c08_overflow_direction_partial: proved at f64_from_parts (rejected => exact >= 2^1024-2^970-2^972; exact >= "
+                 "2^1024+2^972 => rejected); missing: lift through digit dropping and the parse_exponent_overflow path; "
+                 "'every value >= 2^1024 is rejected' is FALSE on the pinned code (known finding C08-F1)",
+                 "c08_underflow_zero_partial: proved at f64_from_parts for every exponent (exact value <= 2^-1076 => +-0, and "
+                 "every zero significand => +-0); missing: the lift to literals with dropped digits; values in "
+                 "(2^-1076, 2^-1075) may legitimately give the least subnormal (1 ulp)",
+                 "c08_f32_once: holds for float-path literals and integers below 2^53; FALSE for u64/i64-path integers above "
+                 "2^53 (serde casts the integer directly; known finding C08-F2, kernel-checked counterexample "
+                 "c08_f32_once_fails_on_large_int)"],
+        technique="Lean 4: IEEE-754 round-to-nearest-even defined on exact naturals and proved against a 'nearest finite "
+                  "double, ties to even, overflow from 2^1024-2^970' specification; exact-IEEE transcription of "
+                  "f64_from_parts and the digit collection; POW10 table, overflow! macro and the 1e308/308 constants "
+                  "re-extracted from src/de.rs each run and the table facts re-proved by kernel evaluation; bit-exact "
+                  "differential run of the model and exact-rational specification against the crate",
+        level_text="Machine-checked Lean 4 theorems over an exact-integer IEEE-754 semantics: roundNE64/roundNE32 are "
+                   "round-to-nearest-even (c08_roundNE64_spec, full minimality form); for every grammatical literal with at "
+                   "most 15 significant digits and net decimal exponent within +-22 the model of from_str::<f64> returns the "
+                   "correctly rounded value (c08_exact_short, and c08_exact_short_parts for any significand < 2^53); every "
+                   "result is finite and carries the literal's sign incl. -0 (c08_finite_signed); f32 = f64 result cast once "
+                   "on the float path (c08_f32_once); overflow direction, zero/underflow and the 5-ulp bound are proved at "
+                   "f64_from_parts for table exponents (…_partial). The parser machine of C01/C02 converts numbers with an "
+                   "independently written transcription (Model.Num.convertDefault); c08p_link proves it equal to the C08 model on "
+                   "everything the scanner produces, and SJ.Props.C08Parser restates the theorems about parseTop on every RFC 8259 "
+                   "number literal, every source, default configuration (c08p_parse_number, c08p_outcome, c08p_finite_signed, "
+                   "c08p_exact_short, c08p_*_partial). The 309-entry POW10 table, the overflow! macro body and "
+                   "the loop constants are regenerated from the source and re-proved on every run; the model is bit-exact "
+                   "against the crate on all generated literals and the exact-rational specification is evaluated on the "
+                   "crate's own outputs.",
+        level_note="Trusted: Lean kernel + propext/Classical.choice/Quot.sound; extract.py; harness/driver comparison; IEEE "
+                   "conformance of rustc literals and hardware ops; serde's primitive visitors. Partial: c08_within_5ulp_partial "
+                   "(|e|<=308, normal results), c08_overflow_direction_partial and c08_underflow_zero_partial (stated at "
+                   "f64_from_parts). Two open known findings on the pinned tree: C08-F1 (literals in [2^1024, 2^1024+2^972) "
+                   "can be accepted as f64::MAX) and C08-F2 (f32 from u64/i64-path integers is a direct cast, not f64 rounded "
+                   "once).",
+    ),
     "C18": dict(
         lean_targets=["SJ.Props.C18", "SJ.Audit.C18"],
         configs=dict(quick=["d"], thorough=["d", "po", "ap"]),
-        gen_keys=["pointer."],
-        rule="fixed index/escape corpus; every pointer of length <= 5 (thorough 6) over the alphabet /~01a- against a "
+        gen_keys=["pointer.", "index.", "partial_eq.", "jsonmacro."],
+        rule="pointer: fixed index/escape corpus; every pointer of length <= 5 (thorough 6) over the alphabet /~01a- against a "
              "document with every escape-relevant key; every existing path of random documents in RFC-order, "
-             "wrong-order and raw spellings, single-edit mutations and random pointers. A case is non-trivial when "
-             "the pointer has at least one reference token; distinct = distinct (document, pointer, op) lines.",
+             "wrong-order and raw spellings, single-edit mutations and random pointers (non-trivial: at least one reference "
+             "token). get/Index/IndexMut: every value kind x 20 probe forms (usize, &str, String, references to them, present / "
+             "missing / out-of-bounds / usize::MAX), then random documents probed with each of their keys, foreign keys and "
+             "positions around the length; IndexMut runs under catch_unwind (non-trivial: null, array or object receiver); "
+             "take through every kind of pointer. peq: ten integer types x boundary comparands (MIN, MAX, 0, +-1, 2^k+-1 for "
+             "k in 7..64) x 80 values (PosInt/NegInt/Float at every type boundary, strings, bools, null, containers), f64/f32 "
+             "comparands incl. NaN, +-0, +-inf, 2^53, 2^63, 2^64, bool, str/String; random value/comparand pairs that are equal, "
+             "adjacent, 2^64 apart or unrelated (default build only; non-trivial: number, string or bool value). json!: 20 fixed "
+             "and 2000 (thorough 20000) random token trees - depth <= 3, trailing commas, duplicate keys from a 3-key pool, "
+             "literal / bare-variable / parenthesised / char keys, interpolated variables of 16 Rust types and compound "
+             "expressions - written into a Rust program that is compiled against the tree under check and prints the macro's "
+             "value and from_str of the equivalent JSON text (non-trivial: at least one container). distinct = distinct lines.",
         trusted_base=[KERNEL, TIE,
-                      "str::split / str::replace / str::parse::<usize> / Vec::get / Map::get modelled by their documented semantics"],
-        assumptions=["Rust std string and slice primitives behave as documented",
-                     "json! macro expansion (rustc macro matcher) is exercised by correspondence only"],
-        partial=["Index/IndexMut/get/take, PartialEq with primitives and json! are not yet modelled (correspondence pending)"],
-        technique="Lean 4 theorem: model of Value::pointer/pointer_mut = RFC 6901 evaluator for all values and pointers; "
-                  "constants regenerated from source; differential run against the crate",
-        level_text="Machine-checked Lean 4 theorems (c18_pointer, c18_pointer_mut, c18_unescape, c18_parse_index) state that the "
-                   "transcription of Value::pointer / pointer_mut equals an RFC 6901 reference evaluator for every value and every "
-                   "pointer string. The replace chain, split character and parse_index guards are re-extracted from src/value/mod.rs "
-                   "on every run, and the model is run against the real crate on generated and exhaustive short pointers.",
-        level_note="Trusted: Lean kernel + propext/Classical.choice/Quot.sound; extract.py; the harness/driver comparison; std "
-                   "string primitives (split, replace, parse::<usize>) modelled by documented semantics. Not yet covered: "
-                   "Index/IndexMut/get/take, PartialEq with primitives, json! macro.",
+                      "str::split / str::replace / str::parse::<usize> / Vec::get / Map::get / Map::insert / Entry::or_insert / mem::replace modelled by their documented semantics",
+                      "Rust `as` casts (integer wrap-around, round-to-nearest-even to floats) and IEEE-754 `==` modelled by their language definition",
+                      "rustc's macro-by-example matcher (rule order, `$e:expr` taking one maximal expression, nonterminal look-ahead) modelled as described in Model/JsonMacro.lean; exercised by the generated program"],
+        assumptions=["Rust std string, slice and map primitives behave as documented",
+                     "an interpolated expression enters the json! model as the Value to_value(&e).unwrap() gives (to_value itself is C15)",
+                     "64-bit target (isize = i64, usize = u64)"],
+        partial=["c18_partial_eq / c18_partial_eq_float: default build only (arbitrary_precision accessors parse the literal text; not modelled, not run)",
+                 "c18_partial_eq_float is a transcription-level statement: the float clause is read as IEEE equality after one correctly rounded conversion (so json!(2^53+1) == 2^53 as f64 and json!(1e300) == f32::INFINITY hold); the integer, bool and string clauses are full strength",
+                 "c18_json_macro: for token trees that are JSON-shaped (Spec.JsonMacro.shape); what the rules do outside that shape (e.g. json!([,1]) == [1]) is modelled and run but not specified"],
+        technique="Lean 4 theorems: models of Value::pointer/pointer_mut/get/get_mut/Index/IndexMut/take, of PartialEq with primitives and of the "
+                  "json_internal! rules against independent reference definitions, for all inputs; constants, the partialeq_numeric! table and the macro "
+                  "rules regenerated from source; differential run against the crate incl. a generated, compiled json! program",
+        level_text="Machine-checked Lean 4 theorems: c18_pointer, c18_pointer_mut, c18_unescape, c18_parse_index (Value::pointer / pointer_mut = RFC 6901 "
+                   "reference evaluator for every value and pointer string); c18_get_index, c18_index_mut, c18_index_mut_reference, c18_take (get / "
+                   "get_mut / Index / IndexMut / take = direct container access, insert-if-missing-then-address with panics exactly on the documented "
+                   "cases, for every value and probe, both map configurations); c18_partial_eq (for every integer type row of the extracted "
+                   "partialeq_numeric! table and every in-range comparand, == is true iff the value is an integer Number holding exactly that integer; "
+                   "bool and strings likewise), c18_partial_eq_float, c18_partial_eq_nan; c18_json_macro (the json_internal! rules applied in source order "
+                   "to any JSON-shaped token tree build the value the equivalent JSON text parses to: arrays in order, last duplicate key wins) and "
+                   "c18_json_rules_tied (the rule list regenerated from src/macros.rs is the transcribed one). All models run against the real crate "
+                   "on generated cases every check, json! through a generated program compiled against the tree under check.",
+        level_note="Trusted: Lean kernel + propext/Classical.choice/Quot.sound; extract.py; the harness/driver comparison; std primitives, `as` casts and "
+                   "rustc's macro matcher modelled by documented semantics. Float comparands: the statement is IEEE equality after conversion (see partial). "
+                   "PartialEq clause not covered under arbitrary_precision. Observation (not a violation of the stated property): json!([,1]) compiles and equals [1].",
     ),
 }
 
@@ -163,27 +253,52 @@ MACHINE_TB = [KERNEL, TIE,
               "io::Bytes delivers the reader's bytes in order (chunking-independent); memchr/SWAR scanning abstracted as a naive scan (C05 proves the SWAR scanner equal to it)"]
 
 PROPS["C10"] = dict(
-    lean_targets=["SJ.Props.C10", "SJ.Audit.C10"],
+    lean_targets=["SJ.Props.C10", "SJ.Props.Typed", "SJ.Audit.C10"],
     configs=dict(quick=["d", "ap"], thorough=["d", "ap", "fr", "po"]),
     gen_keys=["error.", "de."],
     rule="every prefix (length 0..n) of every accepted text among: a fixed corpus of number/escape/container shapes, "
          "grammar-directed random documents, every accepted token sequence of length <= 3 (thorough 4, sharded) over the "
          "41-token structural alphabet; targets Value and IgnoredAny; sources str, slice, reader. One case = one "
-         "(document, target, source) with all its prefixes; non-trivial = document longer than one byte; distinct = distinct lines.",
+         "(document, target, source) with all its prefixes; non-trivial = document longer than one byte; distinct = distinct lines. "
+         "Typed targets (op pfxs): a fixed list of (schema, text) pairs (128-bit bounds, quoted integer/bool/char/unit-enum keys, "
+         "structs from objects and arrays, every enum spelling, bytes from strings with lone surrogates, f32, nested options), the "
+         "crafted typed corpus of C16's op tt, 61 number spellings against every leaf target and as quoted keys of every integer "
+         "width, and 2000 (thorough 20000) random schemas with a matching value's compact and whitespace-spaced text; every "
+         "prefix is run through the universal seed (str, slice or reader) and through the typed model Model.Typed.deTypedTop.",
     trusted_base=MACHINE_TB,
-    assumptions=["typed targets (128-bit integers, quoted numeric/bool keys, raw values) are covered by correspondence only until the typed machine exists",
+    assumptions=["raw values as typed targets are covered by correspondence only (C19); the typed theorems are about the universal "
+                 "seed's schema universe (harness/src/schema.rs), whose visitors are transcribed in SJ/Model/FromValue.lean",
                  "std io::Bytes semantics"],
-    partial=["c10_prefix_value_partial: the Value-target theorem carries the exception c = NumberOutOfRange (prefix = complete out-of-range number literal) — open known finding C10-out-of-range-number-prefix",
-             "typed targets and stream iteration: not yet modelled"],
+    partial=["the Value-target statement has one exception, which is a genuine deviation of the crate and not a gap of the proof: a prefix "
+             "that is a complete out-of-range number literal fails with NumberOutOfRange (open known finding "
+             "C10-out-of-range-number-prefix); c10_prefix_value_exact characterises it exactly on the machine state and "
+             "c10_prefix_value_ap shows it cannot occur under arbitrary_precision",
+             "c10_typed_prefix_partial: for schemas containing an f64 / f32 / Value target the typed theorem carries the same inherent "
+             "NumberOutOfRange exception (a prefix can be a complete out-of-range float literal); c10_typed_prefix has no exception "
+             "for every other schema (128-bit integers and all key kinds included)",
+             "stream iteration: not modelled"],
     technique="Lean 4 theorems over a byte-step machine model (fold decomposition + exhaustive analysis of the end-of-input table "
               "against the classify arms regenerated from error.rs) + differential prefix sweep against the crate",
     level_text="Machine-checked: for the Value and IgnoredAny targets, in every feature configuration and for every input source, "
                "every prefix of an accepted text is accepted or fails at the end of the prefix with an Eof-classified error "
-               "(c10_prefix_ignored; c10_prefix_value_partial with the single inherent NumberOutOfRange exception made explicit). "
-               "classify and the error codes are regenerated from src/error.rs each run; the machine is compared with the crate on "
-               "every prefix of generated and exhaustive short documents, and the property's own predicate is evaluated on the crate's outputs.",
+               "(c10_prefix_ignored for skipped content; c10_prefix_value_ap for Value under arbitrary_precision: pure Eof; "
+               "c10_prefix_value_exact for Value in general: the single other outcome is NumberOutOfRange at the end of the prefix, and "
+               "then the machine state reached after the prefix is a number state in a final phase — the prefix ends in a complete "
+               "number literal — whose conversion numValue fails; conversely every such state is rejected that way, "
+               "c10_number_exception; witnessed by 1 followed by 400 zeros, a prefix of the accepted 10…0e-395). "
+               "Typed targets: c10_typed_prefix — for every schema of the typed universe without a float / Value site (bool, twelve "
+               "integer widths incl. 128-bit, char, strings, bytes, option, unit, newtype, seq, tuple, maps with every key kind, "
+               "structs, enums, IgnoredAny), every configuration and source, a proper prefix of a text accepted by the typed "
+               "deserializer + end() is never accepted with a different reading: it fails with an Eof-classified error (visitor "
+               "errors and fuel exhaustion excluded by proof: typed_no_panic, typed_fuel_suffices); c10_typed_prefix_partial covers "
+               "all schemas with the NumberOutOfRange exception; c10_typed_core is the relational core. "
+               "classify and the error codes are regenerated from src/error.rs each run; the machine and the typed model are compared "
+               "with the crate on every prefix of generated and exhaustive short documents, and the property's own predicate is "
+               "evaluated on the crate's outputs.",
     level_note="Trusted: Lean kernel + propext/Classical.choice/Quot.sound; extract.py; harness/driver; the hand-written machine model "
-               "(validated by correspondence, 0 disagreements). Typed targets, 128-bit, map keys, raw values and streams are not yet inside the model.",
+               "(validated by correspondence, 0 disagreements) and the hand-written typed model SJ/Model/Typed.lean (transcription of "
+               "impl Deserializer for &mut Deserializer<R>, validated by ops tt / tt3 / pfxs / rfaults, 0 disagreements). Raw values and "
+               "streams are not inside the typed model.",
 )
 
 PARSE_RULE = ("every token sequence of length <= 3 (thorough: 4, 1/4 sampled by seed) over the 43-token structural alphabet "
@@ -199,17 +314,23 @@ PROPS["C09"] = dict(
     configs=dict(quick=["d", "ap"], thorough=["d", "ap", "fr", "po"]),
     gen_keys=["error.", "de."],
     rule=PARSE_RULE + " C09 adds multi-line documents (spaces turned into newlines) with 4 mutations each; the three sources' "
-         "outcomes (message, category, line, column, value) are compared with each other and with the model.",
+         "outcomes (message, category, line, column, value) are compared with each other and with the model. Typed targets (op tt3): "
+         "the crafted typed corpus and random (schema, text) pairs with byte-level mutations, each from str, slice and a chunked reader.",
     trusted_base=MACHINE_TB,
     assumptions=["io::Bytes yields the reader's bytes one at a time in order, whatever the chunking (std)",
-                 "typed targets, raw values and stream iteration are not yet inside the model"],
-    partial=["c09_str_slice for the Value target (needs: decoded strings of a UTF-8 input are UTF-8) — carried by correspondence",
-             "typed targets (|delta index| <= 1), 128-bit, raw, stream byte_offset: correspondence pending"],
+                 "raw values and stream iteration are not inside the model; typed targets are modelled (Model.Typed) and run by "
+                 "op tt3 (str, slice, reader outcomes of one text against deTypedTop with src = slice / reader)"],
+    partial=["typed targets: no theorem relates the slice and reader runs of the typed model; the clause (same class, positions at most "
+             "one byte apart between slice and reader — the reader's error() counts the peeked byte — and str = slice exactly) is "
+             "evaluated by op tt3 on the crate's outcomes and the model reproduces both positions (0 disagreements)",
+             "raw, stream byte_offset: correspondence only"],
     technique="Lean 4 theorem: the byte-step machine's outcome is independent of the slice/reader source (step-wise equality + all "
               "error sites include the offending byte) + three-source differential run against the crate",
     level_text="Machine-checked: c09_slice_reader — for every configuration, both untyped targets and every byte string the slice and "
                "reader sources give the same value or the same error code at the same position (hence message, category, line, "
-               "column); c09_str_slice_ignored for skipped content. The crate is run on every generated input from all three "
+               "column); c09_str_slice_value / c09_str_slice / c09_all_sources — on every valid UTF-8 input (every &str) the &str source gives "
+               "the identical outcome too (the UTF-8 check it skips never fires: what is decoded so far followed by the unread input "
+               "stays valid UTF-8); c09_str_slice_ignored for skipped content without that hypothesis. The crate is run on every generated input from all three "
                "sources with random chunkings and the outcomes are compared with each other (spec) and with the model.",
     level_note="Trusted: Lean kernel + 3 standard axioms; extract.py; harness/driver; hand-written machine model validated by "
                "correspondence. Two genuine position defects found by this check were repaired in /repo (fix: commits 28defde, 9343bad).",
@@ -223,35 +344,48 @@ PROPS["C11"] = dict(
          "against an independent recursive-descent scanner (Spec.Pos) that computes the first byte after which no continuation is JSON.",
     trusted_base=MACHINE_TB,
     assumptions=["side-condition errors (surrogates, UTF-8, number range, depth) are only required to lie within the input"],
-    partial=["c11_earliest (the prefix before the reported byte is still viable) is not proved yet; the correspondence checks it "
-             "against Spec.Pos on every generated input"],
+    partial=["c11_earliest holds under the state predicate SideOK (vacuous for skipped content, and for &str input under "
+             "arbitrary_precision): a Value state can be doomed by a side condition before any grammar error is reported -- a string "
+             "whose bytes can no longer pass the UTF-8 check of byte sources (c11_sideOK_needed: '\"\\xff' + U+0001), a number "
+             "committed to a non-negative exponent whose mantissa alone is out of f64 range ('1' '0'x309 'e+x'); faults inside a \\u "
+             "group are reported at the group's fourth byte (k = 4). The converse (SideOK is necessary) is proved only for the UTF-8 case"],
     technique="Lean 4 theorems on the byte-step machine (errors are raised by the step that reads the offending byte and are stable "
               "under extension; Eof errors only at end of input; line/column arithmetic) + independent positioned scanner as oracle",
     level_text="Machine-checked: c11_dead (a grammar error reported at byte count idx dooms the prefix of length idx: every continuation "
                "fails identically), c11_eof_at_end, c11_within_input, c11_line / c11_col_* (the line/column formulas of the statement), "
+               "c11_earliest / c11_earliest_ignored / c11_earliest_str_ap / c11_earliest_grammar (the bytes before the reported one "
+               "have an accepted continuation: explicit completions of every machine state, Proofs/Earliest*.lean), "
                "for Value and ignored targets, all configurations and sources. Every error position the crate reports on generated "
                "non-JSON inputs is compared with the model and with an independent first-dead-byte scanner.",
     level_note="Trusted: Lean kernel + 3 standard axioms; extract.py; harness/driver; machine model validated by correspondence; "
-               "Spec.Pos (independent recursive-descent scanner) as executable oracle. c11_earliest not yet a theorem.",
+               "Spec.Pos (independent recursive-descent scanner) as executable oracle.",
 )
 
 PROPS["C14"] = dict(
+    asan=True,
     lean_targets=["SJ.Props.C14", "SJ.Audit.C14"],
-    configs=dict(quick=["d"], thorough=["d", "ud", "ap"]),
+    configs=dict(quick=["d", "ud"], thorough=["d", "ud", "ap"]),
     gen_keys=["de."],
-    rule=PARSE_RULE + " C14 adds 20k (thorough 200k) random byte strings biased to JSON punctuation, and ten pathological inputs "
+    rule=PARSE_RULE + " C14 adds typed targets built from arrays, newtype-enum and struct-enum wrappers nested 1..140 deep in six "
+         "mixes (accepted iff at most 127 containers are open), unbounded_depth runs with the limit disabled at depth 127..1000 "
+         "directly and through a stream, 20k (thorough 200k) random byte strings biased to JSON punctuation, and ten pathological inputs "
          "(10^6-deep arrays open/balanced, 2*10^5-deep objects, 4 MB string, 10^6 escapes, 10^6-digit integer/fraction/exponents, "
          "10^6-element array) each through Value (slice, reader) and IgnoredAny under catch_unwind.",
     trusted_base=MACHINE_TB,
     assumptions=["memory safety of compiled unsafe blocks, real stack consumption and allocator behaviour are runtime properties outside any model (partial by nature)"],
-    partial=["c14_utf8 (every returned String is valid UTF-8), c14_no_fuel (number conversion never runs out of fuel) and the shape "
-             "invariant making the remaining model fallbacks unreachable are not proved yet",
+    partial=["the shape invariant making every remaining model fallback unreachable is proved inside the soundness development "
+             "(Proofs/Sound: Inv) but not restated per fallback",
              "typed targets / enum wrappers / stream depth restoration: not yet modelled"],
     technique="Lean 4 invariants over the byte-step machine (stack height < 128 for every reachable state, re-dispatch happens at most "
-              "once, termination by structural recursion) + pathological-input runs of the crate under catch_unwind",
+              "once, UTF-8 of every returned string, no fuel exhaustion, termination by structural recursion) + pathological-input "
+              "runs of the crate under catch_unwind (thorough: also under AddressSanitizer)",
     level_text="Machine-checked: c14_depth_bounded (every reachable state of a Value parse has at most 127 open containers, so the real "
                "recursion is bounded), c14_limit_hit (opening the 128th container is RecursionLimitExceeded at that byte), "
-               "c14_again_once (the only unreachable!-style fallback of step is unreachable); termination by construction. The crate "
+               "c14_again_once (the only unreachable!-style fallback of step is unreachable), c14_utf8 (every string and key of a "
+               "returned value is valid UTF-8 - for the &str source, which uses str::from_utf8_unchecked, given that its input is "
+               "valid UTF-8) and c14_utf8_at_closing_quote (the same at every closing quote reached, also in documents rejected "
+               "later), c14_no_fuel / c14_no_fuel_machine (the fuelled f64_from_parts loop of the number conversion never runs out of "
+               "fuel on anything the scanner produces; the float_roundtrip conversion has no fuel); termination by construction. The crate "
                "is run on random bytes, mutated documents, depth profiles and megabyte/10^6-deep inputs with catch_unwind.",
     level_note="Trusted: Lean kernel + 3 standard axioms; extract.py (remaining_depth = 128 is regenerated); harness/driver; machine "
                "model. Partial by nature: actual memory safety and stack usage of compiled code cannot be exhibited by a model.",
@@ -269,14 +403,16 @@ PROPS["C12"] = dict(
     trusted_base=MACHINE_TB,
     assumptions=["byte_offset() after the stream has failed is not constrained by the property and is not compared",
                  "typed item types are not yet inside the model"],
-    partial=["c12_values (the yielded values/offsets are exactly those of the grammar's decomposition) awaits parser completeness; "
-             "until then it is checked on every generated stream against the independent scanner Spec.Pos + Spec.Canon"],
+    partial=[],
     technique="Lean 4 theorems over a model of Iterator::next on top of the byte-step machine (fusedness by invariant over call "
               "histories, progress, Eof errors only at end of input) + history-level differential run against the crate and an "
               "independent grammar-based oracle",
     level_text="Machine-checked: c12_fused (after a failed value every later next() is None, for any number of calls), c12_error_fails, "
                "c12_progress (each yielded value consumes at least one byte: next() terminates and yields at most n values), "
-               "runPrefix_eof_at_end (an Eof error is reported only at the end of the available input). The delimiter and "
+               "runPrefix_eof_at_end (an Eof error is reported only at the end of the available input), c12_values / c12_values_one "
+               "(a stream w0 v1 w1 .. vn wn of derivable values meeting the side conditions and the delimiter rule yields exactly "
+               "canonM of each tree with byte_offset() just past each value, then None forever at the end of the input: "
+               "c12_expected_at, c12_expected_end, c12_values_canon). The delimiter and "
                "self-delineation sets are regenerated from src/de.rs. Whole histories (items and byte offsets) of the crate are "
                "compared with the model and with an independent grammar-based expectation.",
     level_note="Trusted: Lean kernel + 3 standard axioms; extract.py; harness/driver; machine and stream models validated by "
@@ -284,13 +420,15 @@ PROPS["C12"] = dict(
 )
 
 PROPS["C13"] = dict(
-    lean_targets=["SJ.Props.C13", "SJ.Audit.C13"],
-    configs=dict(quick=["d"], thorough=["d", "ap", "po"]),
+    lean_targets=["SJ.Props.C13", "SJ.Props.Typed", "SJ.Audit.C13"],
+    configs=dict(quick=["d", "rv"], thorough=["d", "rv", "ap", "po"]),
     gen_keys=["error.", "de.", "ser."],
     rule="reader side: 15 fixed + 150 (thorough 1500) generated/mutated documents, a reader that fails at every byte k in 0..=len "
          "with one of 5 error kinds, a random chunking schedule and interleaved Interrupted results, targets Value and IgnoredAny "
          "(modelled) and five typed targets ((i32,i32), Vec<u8>, BTreeMap<String,Vec<i64>>, Option<(String,bool)>, [();3]; "
-         "spec only), each also run with a clean end of input after the same k bytes; stream iteration over a failing reader; "
+         "spec only), each also run with a clean end of input after the same k bytes; schema-typed targets (op rfaults: fixed and "
+         "random (schema, text) pairs through the universal seed, reader failing after every k, compared with the typed model run "
+         "in fault mode); stream iteration over a failing reader; in raw_value builds also Box<RawValue> at top level (model: Model.IoFault.rawFault) and as Vec / map elements (spec only), so that the fault arrives while the reader holds a raw buffer; "
          "writer side: 300 (thorough 3000) serializer programs x {compact, pretty} with a writer accepting m bytes for m in "
          "0..=len+1 (sampled for long outputs) under random short-write patterns and Interrupted, recording every buffer handed "
          "to write_all. Non-trivial = k > 0 / m > 0; distinct = distinct lines.",
@@ -298,16 +436,20 @@ PROPS["C13"] = dict(
     assumptions=["io::Bytes retries Interrupted and yields bytes in order; Write::write_all loops over short writes and retries "
                  "Interrupted (std) — exercised by the harness, not modelled",
                  "typed targets are judged by the property's predicate against the same bytes followed by a clean end of input"],
-    partial=["whole-program lift of 'every buffer is valid UTF-8 on its own' (c03_utf8_partial + c05_escape_buffers_utf8_cut give it per "
-             "string; the correspondence checks every recorded buffer with Spec.Utf8.validUtf8)",
-             "typed targets have no model yet"],
+    partial=["typed targets: c13_typed_fault gives the outcome class (Io, or an error / visitor error located within the delivered "
+             "bytes, never a value) but does not state that the non-Io outcome equals the clean-end-of-input run's; that equality is "
+             "checked per case by op rfaults"],
     technique="Lean 4 theorems: a reader fault instead of end of input turns the fold's finish into Io unless a delivered byte was "
               "already rejected (c13_read, by induction over the fold); writer prefix law over the serializer model's buffer list; "
               "fault-injecting readers/writers against the crate",
     level_text="Machine-checked: c13_read (reader failing after bs: the result is Io iff no delivered byte is rejected, else exactly the "
                "error those bytes produce from any source), c13_read_error_class (that error is Syntax-classified and positioned "
                "within the delivered bytes; never a value, never Eof), c13_write_prefix / c13_write_is_prefix (accepted bytes are the "
-               "first m bytes of the fault-free output; failure iff m < length). The crate is run with readers failing at every "
+               "first m bytes of the fault-free output; failure iff m < length), c13_buffers_utf8 (for every program whose strings are UTF-8 "
+               "and either formatter, every buffer passed to write_all is valid UTF-8 on its own, hence so is what a writer holds after "
+               "any number of whole buffers; the correspondence also checks every recorded buffer of the crate with "
+               "Spec.Utf8.validUtf8), c13_typed_fault (typed deserializer of any schema over "
+               "a reader that fails after bs: never a value — Io, or a syntax / visitor error positioned inside bs). The crate is run with readers failing at every "
                "byte and writers failing after every byte count, with chunking, short writes and Interrupted.",
     level_note="Trusted: Lean kernel + 3 standard axioms; extract.py; harness/driver; machine and serializer models. std::io retry "
                "loops are assumed. A genuine defect found by this check (Io error yielded twice by a stream) was repaired in /repo.",
@@ -428,7 +570,7 @@ PROPS["C20"] = dict(
          "Number and of the Value, pretty, and nested in a document read through a chunked reader; documents of arrays of such "
          "literals with whitespace re-serialised; plus the whole parser input space of C01 (values compared as literal text).",
     trusted_base=MACHINE_TB,
-    assumptions=["as_f64 of an arbitrary-precision Number is str::parse::<f64> (std): 'nearest finite f64 or None' is std's guarantee and is not re-checked here",
+    assumptions=["as_f64 of an arbitrary-precision Number is str::parse::<f64> (std); the correspondence compares it with Spec.Ieee.roundNE64 of the literal's exact value",
                  "Number::from_str = number entry point + end-of-input check, modelled as 'parser returns a number and the input has no whitespace'"],
     partial=["c20_typed_same (typed deserialisation independent of the feature) is C06's c06_typed, which does not mention the feature; "
              "the accessor clause is checked by correspondence against the literal's exact value"],
@@ -443,6 +585,207 @@ PROPS["C20"] = dict(
                "number alphabet against the grammar.",
     level_note="Trusted: Lean kernel + 3 standard axioms; extract.py; harness/driver; machine model. A genuine defect (-0 stored as 0) was "
                "repaired in /repo (fix: d7b526b).",
+)
+
+PROPS["C16"] = dict(
+    lean_targets=["SJ.Props.C16", "SJ.Props.Typed", "SJ.Audit.C16"],
+    configs=dict(quick=["d", "fr"], thorough=["d", "fr", "po", "ap"]),
+    gen_keys=["fromvalue."],
+    rule="(schema, value) pairs for the universal DeserializeSeed of harness/src/schema.rs, each run through from_value (Value by value), "
+         "&Value and from_str(to_string(value)) followed by end(): a fixed corpus (every leaf target and every leaf under Option / newtype / "
+         "Vec / 1-tuple against ~110 small values incl. every integer bound and number-literal spellings; tuples too short / exact / too "
+         "long; every key kind (String, 10 integer widths, bool, char, unit enum) against 46 key spellings such as 12, -3, 01, 1.0, 1e0, "
+         "true, +1, -0, ' 1', type bounds and bounds+-1; structs with and without deny_unknown_fields from objects (unknown / missing / "
+         "optional / ill-typed fields, any order) and arrays (short / exact / long); an enum with unit, newtype, tuple and struct variants "
+         "in every spelling incl. two-key and empty objects and unknown variants; the statement's three exclusions), then random schemas "
+         "from gen_schema (depth 0-3, all 18 node kinds, all key kinds) with 1-3 values each from gen_value_for (matching, and deliberately "
+         "mismatching at every level: wrong kind, out-of-range and just-in-range integers, floats for integers, extra / missing elements, "
+         "unknown / missing / clashing fields, wrong variant payload shapes, ill-formed numeric keys) plus unrelated random values. "
+         "The case line carries to_string(value); the driver runs the typed text model on it. Op tt (typed text deserializer alone): "
+         "(schema, text) pairs from str, slice and chunked reader — a crafted corpus (13 array spellings incl. trailing commas against "
+         "seq / tuple / struct / bytes targets; 12 literal prefixes such as nul, nulx, tru against option and leaf targets; 36 object "
+         "spellings (quoted numeric / bool keys with missing quotes, signs, leading zeros, fractions, escapes) against every key kind "
+         "and structs; 36 enum spellings incl. {\"V\":true ,}; nests of depth 1, 2, 126-129 against typed, Value and IgnoredAny "
+         "targets sharing the recursion budget; raw strings with lone surrogates and invalid UTF-8), 61 number spellings (every "
+         "integer bound +-1 up to 128 bits, exponent overflow, f32 extremes) against every leaf target and as quoted keys of every "
+         "integer width, 1200 (thorough 12000) random schemas with a matching value's compact and whitespace-spaced text and an "
+         "unrelated value's text, and of the short ones every truncation, every single-byte deletion, substitutions at each position and insertions from a 29-byte structural alphabet; outcome = value or (message, category, line, column). "
+         "Non-trivial = the schema is not a bare leaf or the value is an array/object; distinct = distinct case lines.",
+    trusted_base=[KERNEL, TIE + "; for C16 the translator regenerates the routing table of src/value/de.rs (per method: delegation, "
+                  "macro, or Value::K => callee arms; forward_to_deserialize_any lists; leftover checks; numeric-key guard) and "
+                  "c16_routing_tied compares it with the table the transcription was written against (a fingerprint)",
+                  "the universal seed of harness/src/schema.rs: serde's own Deserialize impls for the leaves (bool, 12 integers, f32/f64, char, "
+                  "String, (), IgnoredAny, serde_bytes::ByteBuf, Value) and hand-written copies of the visitor shapes serde_derive generates for "
+                  "Option, newtype struct, Vec, fixed tuples, maps, structs (seq or map, __Field identifiers, deny_unknown_fields, "
+                  "missing_field) and externally tagged enums; their Lean transcription is the 'visitors' part of SJ/Model/FromValue.lean, "
+                  "shared by the owned and the borrowed side as the visitor objects are in Rust",
+                  "str::parse::<iN/uN/f64/f32>, `as` casts, ryu and f64::to_string are external: parse/casts modelled by documented semantics "
+                  "(exact / correctly rounded, SJ.Spec.Ieee); ryu and Display texts are passed by the harness per literal (Ext parameter, "
+                  "arbitrary_precision only)",
+                  "SJ.Spec.Ieee is the lead's placeholder round-to-nearest-even (to be replaced by the C08 branch's, same signatures)"],
+    assumptions=["Values are well-formed: Number::Float is finite, object keys are distinct and are not the private tokens "
+                 "$serde_json::private::Number / RawValue; struct field names and variant names of a schema are distinct",
+                 "serde visitors behave as transcribed (they are serde's, not serde_json's); raw_value builds are not in the configurations",
+                 "float results are compared only under float_roundtrip or when every number of the value is an integer in [i64::MIN, u64::MAX] "
+                 "or a short literal (<= 15 significant digits, |decimal exponent| <= 22), as the statement says"],
+    partial=["c16_agree_partial / c16_text_agrees_partial: the owned/borrowed leg is proved in full strength over the whole universe and "
+             "every configuration (c16_owned_borrowed). The text leg — Model.Typed.deTypedTop (transcription of de.rs's typed entry "
+             "points + end()) on the serializer model's to_string(v) equals fromValue — is proved for the fragment bool / twelve integer "
+             "widths / unit / unit struct / Option / newtype / Vec / fixed tuples over float-free non-arbitrary_precision values within "
+             "the depth budget, matching and mismatching values alike. Missing: strings, char, bytes, every map / struct / enum target "
+             "(need the string sub-machine round trip parse(escape s) = s over runPfx), float targets and values (ryu's shape), "
+             "IgnoredAny and Value targets (C01 completeness over runPfx), arbitrary_precision. Outside the fragment the three-way "
+             "agreement is carried by the correspondence run: the executable specification compares the three REAL outcomes on every "
+             "generated pair and the driver's third model field is computed by the typed model from the text (0 disagreements)",
+             "the wire codecs of Schema / TVal have no round-trip lemma (decode (enc x) = x); they are exercised on every case line"],
+    technique="Lean 4 theorem by mutual structural induction over a nested typed universe: the two transcriptions of src/value/de.rs (owned "
+              "Deserializer for Value, borrowed Deserializer for &Value, each with its seq/map/enum/variant access types, sharing Number's "
+              "impl and MapKeyDeserializer as the crate does) are equal on every schema and value; structural corollaries; differential run "
+              "of both transcriptions and of the three-way executable statement against the crate through a universal DeserializeSeed",
+    level_text="Machine-checked Lean 4 theorems: c16_owned_borrowed — for every configuration, every schema of the typed universe (bool, 12 "
+               "integer widths, f64/f32, char, string, byte buffer, option, unit, unit struct, newtype, seq, fixed tuple, map with "
+               "string/integer/bool/char/unit-enum keys, struct with or without deny_unknown_fields given as object or array, externally "
+               "tagged enum with unit/newtype/tuple/struct variants, IgnoredAny, Value) and every Value, the transcription of from_value "
+               "and the transcription of Deserialize-from-&Value return the same outcome; plus c16_ignored_total, c16_any_identity, "
+               "c16_tuple_exact_length, c16_struct_array_exact_length, c16_int_in_range, c16_enum_single_key, c16_option, "
+               "c16_result_comparator_exact (the comparator of the executable statement is equality), c16_routing_tied (source routing "
+               "= transcribed routing, regenerated each run). Both "
+               "transcriptions are run against the real crate on every generated (schema, value) pair (0 disagreements in four feature "
+               "configurations) and the three-way statement (owned, borrowed, from_str of to_string) is evaluated on the crate's own "
+               "outcomes with exactly the statement's exclusions. Text side: Model.Typed transcribes every deserialize_* entry point "
+               "of impl Deserializer for &mut Deserializer<R> (whitespace, literals, integer / 128-bit / float scanners, strings and raw "
+               "WTF-8 strings, option, seq / tuple with end_seq, maps with MapKey for every key kind, structs, enums, ignored, any, "
+               "recursion budget, error positions for slice and reader); typed_no_panic / typed_fuel_suffices / typed_fuel_irrelevant "
+               "(the model is total and its fuel is sufficient: the result is never `fuel` once fuel > schema size), typed_progress, and "
+               "c16_text_agrees_partial (text leg = from_value on the scalar / sequence fragment). The typed model is compared with the "
+               "crate on every C16 pair's text and on ~200k (schema, text) cases per configuration incl. mutated texts, with message, "
+               "category, line and column (0 disagreements).",
+    level_note="Trusted: Lean kernel + propext/Classical.choice/Quot.sound; harness/driver comparison; the universal seed and serde's visitors "
+               "as transcribed; std parse/cast and ryu/Display as parameters; the hand-written typed text model (validated by "
+               "correspondence). Partial: the text leg of the three-way theorem is proved on a fragment and covered by correspondence "
+               "elsewhere. Open findings (arbitrary_precision only): literal -0, "
+               "non-finite literals into f64, Display-form literals into Value.",
+)
+
+PROPS["C15"] = dict(
+    lean_targets=["SJ.Props.C15", "SJ.Audit.C15"],
+    configs=dict(quick=["d", "fr"], thorough=["d", "fr", "po", "ap"]),
+    gen_keys=["tovalue."],
+    rule="serializer programs replayed against serde_json::to_value (tov) and the triple to_value / to_string / "
+         "from_str(to_string(f32-widened data)) (tovagree): a fixed corpus (every serde::Serializer entry point; every integer "
+         "width at 0, +-1, MIN/MAX and around i64::MIN, i64::MAX, u64::MAX, 2^64, i128/u128 extremes, alone, in sequences and as "
+         "map values and keys; 33 f32 and 34 f64 specials incl. subnormals, extremes, -0, 1e22/1e23, NaN/inf as values and keys; "
+         "every key kind valid (str, char, enum, collect_str, bool, every integer width, finite f32/f64, newtype chains), Option "
+         "keys (Some of each kind, nested, behind newtype structs) and invalid (compound, unit, None, bytes, variants with "
+         "payload, non-finite floats, Some around invalid keys), each in three contexts; duplicate and colliding keys across key "
+         "kinds, insertion vs sorted order; failure-order cases mixing two key error classes and 128-bit overflow; nested "
+         "variants), then random programs: 4/6 from the C03 generator gen_prog (all constructors, depth 0-4, hints None/exact, "
+         "adversarial strings, float specials), 1/6 maps with colliding/repeated keys over several key kinds, 1/6 numeric programs "
+         "(boundary integers, f32/f64 of every class in seq/struct/map/variant/option positions). Of the random programs with an "
+         "Option key only 1 in 16 (thorough: 1 in 40) is run as generated (known finding C15-some-key; the driver prints at most 200 failures), the "
+         "others with the Some wrappers removed from keys. A case is non-trivial when the program builds an object (map, struct, "
+         "variant with payload), has bytes, a float or a 128-bit integer; distinct = distinct case lines.",
+    trusted_base=[KERNEL, TIE,
+                  "itoa and ryu are parameters (structure Ext) with the recorded assumptions ExtOK (itoa prints plain decimal digits, ryu "
+                  "prints finite floats as RFC 8259 numbers); the ryu text of every generated float (and of every widened f32) is "
+                  "shipped with the case and checked to be a number",
+                  "the text-side facts come from C03 (c03_compact, c03_error_iff) and its trusted base; Map<String, Value> = BTreeMap / "
+                  "IndexMap by documented insert semantics (Model.Machine.btInsert / ixInsert, proved equal to the declarative map "
+                  "specification in SJ/Proofs/MkObj.lean); the parser's number classification is Model.Num (validated by the C01/C02 "
+                  "correspondence) with the integer lemmas of SJ/Proofs/NumInt.lean",
+                  "`f32 as f64` is modelled on bit patterns (Model.ToValue.f32to64) and validated against the crate on every generated f32; "
+                  "serde's default SerializeMap::serialize_entry, u64/i64::try_from, String::push, to_string: by documented semantics"],
+    assumptions=["ExtOK: ext.itoa n = Spec.Number.decimal n; finite floats print as numbers",
+                 "programs are within the Rust types (inScope: every integer fits its entry point's type) and do not use the private "
+                 "struct names $serde_json::private::Number / RawValue (SerializeMap::Number / RawValue, NumberValueEmitter, "
+                 "RawValueEmitter are out of scope; `numberLit` is excluded)",
+                 "float comparison (floatsRT): every finite f64 serialised as a value is read back from its printed text as the same "
+                 "double — C07 + ryu correctness under float_roundtrip, short literals (<= 15 digits, |exp| <= 22) by default (C08), "
+                 "vacuous under arbitrary_precision; the correspondence compares exactly under fr/ap/short and with floats erased otherwise",
+                 "c15_agree: the printed value nests at most 127 deep (SVal.nest p <= 127) unless the recursion limit is off; for byte "
+                 "sources the Rust string invariant SVal.utf8OK p (every &str handed over is UTF-8, every char a scalar value)"],
+    partial=[],
+    technique="Lean 4 theorems over all serializer programs: the transcription of value::Serializer / SerializeVec / SerializeMap / "
+              "SerializeTupleVariant / SerializeStructVariant / value::ser::MapKeySerializer / Number::from_* is related by one mutual "
+              "induction to the data-model image that the text serializer is proved (C03) to print; the dispatch tables of both "
+              "MapKeySerializers, the bool key literals and the 128-bit branch shape are regenerated from src/value/ser.rs and "
+              "src/ser.rs each run; differential run of to_value against the model, and of the property's own statement "
+              "(to_value vs to_string vs from_str) on the crate",
+    level_text="Machine-checked Lean 4 theorems for every serializer program within the Rust types and every configuration "
+               "(preserve_order, float_roundtrip, arbitrary_precision): to_value succeeds exactly when to_string does, except for "
+               "128-bit integers outside [i64::MIN, u64::MAX] without arbitrary_precision, which fail with NumberOutOfRange "
+               "(c15_success_iff, c15_128_error); both fail with the same error class (c15_error_iff); on success the result is the "
+               "Value denoted — under the parser's own classification rules — by the same data-model image that to_string is proved "
+               "to print, with f32 widened (c15_value_is_image, c15_valueOfImage_is_canon), and it is exactly the Value obtained by parsing "
+               "to_string of the f32-widened data, from every input source (c15_agree: parser completeness is the theorem parserComplete, "
+               "from C01 c01_complete_value and C02 c02_canonM_eq_canon; the printed tree's side conditions are derived from the "
+               "program: depth = SVal.nest <= 127, no \\u escape but \\u00XX, strings UTF-8 from SVal.utf8OK, numbers in range because "
+               "the value exists). The two key serializers agree on every key program, Some(_) keys included (c15_keys; the former "
+               "deviation C15-some-key is fixed in /repo). The key-serializer dispatch tables are regenerated from the source each "
+               "run and tied to the models (c15_key_dispatch); the model is compared with serde_json::to_value on generated "
+               "programs and the property's statement is evaluated on the crate's own outputs.",
+    level_note="Trusted: Lean kernel + propext/Classical.choice/Quot.sound; extract.py; harness/driver comparison; itoa/ryu as assumed "
+               "parameters; C03's model of the text serializer; BTreeMap/IndexMap insert semantics; Model.Num as the parser's number "
+               "semantics. f64 equality under the stated float proviso (floatsRT); agreement with the parsed Value for programs whose "
+               "printed value nests at most 127 deep (sharp: progDeep in SJ/Props/C15.lean).",
+)
+
+PROPS["C04"] = dict(
+    lean_targets=["SJ.Props.C04", "SJ.Audit.C04"],
+    configs=dict(quick=["d", "fr"], thorough=["d", "fr", "po", "ap", "rv"]),
+    gen_keys=["ser.", "de.", "error."],
+    rule="rtv: Values — a fixed corpus (boundary integers 0, +-1, +-2^53(+-1), i64::MIN/MAX, u64::MAX, powers of ten; every control "
+         "character, quote, backslash, U+2028, U+FFFF, astral characters as string, as key and inside a string; strings that look "
+         "like escapes; an object with all adversarial keys; empty containers; 1/2/50/100/126/127-deep arrays, objects and mixes "
+         "around five leaves; floats admitted by the configuration), 4000 (thorough 30000) random values of depth 0-4 (a third "
+         "without floats) and 200 (1500) random values wrapped 90-124 deep; floats: any finite f64 under float_roundtrip and "
+         "arbitrary_precision, otherwise only k*10^e with k < 10^15, |e| <= 22 whose printed text has at most 15 significant digits "
+         "and decimal exponent within +-22; each through to_string/from_str, to_vec/from_slice, to_writer/from_reader(chunked) x "
+         "{compact, pretty}; the value read back must have the same wire encoding (integers exact, floats bit for bit, object "
+         "iteration order). rtt: typed data — a zoo of derive(Serialize, Deserialize) types (harness/src/c04t.rs: all integer widths "
+         "to 128 bits at their bounds, f32, char, String, Option incl. nested/unit, unit/newtype/tuple/named structs incl. empty ones, "
+         "Vec, tuples, arrays, BTreeMap/HashMap with string/integer/bool/char/newtype/unit-variant keys, enums with all four variant "
+         "kinds incl. empty tuple/struct variants and escaped names, ByteBuf, recursive types, std types), 40 (thorough 1500) random "
+         "instances per type from the harness PRNG through the same six combinations, compared after the Some(null-like) -> None "
+         "normalisation. A case is non-trivial when the value is a number, a non-empty string or a container (rtt: always); "
+         "distinct = distinct case lines.",
+    trusted_base=[KERNEL, TIE,
+                  "hand-written models Model.Ser (serializer, tied by C03's correspondence) and Model.Machine/Model.Num (parser, tied by "
+                  "C01/C02's correspondence); here their composition is run against the crate's own round trip on every generated Value",
+                  "itoa prints plain decimal digits; ryu prints finite floats as RFC 8259 numbers (ExtOK)"],
+    assumptions=["itoa::Buffer::format prints the plain decimal digits of the integer (Ext.itoa = Spec.Number.decimal)",
+                 "ryu::Buffer::format_finite prints an RFC 8259 number; that the configured parser maps this text back to the same double is "
+                 "the explicit hypothesis FloatsRoundTrip of the theorems (C07's corollary under float_roundtrip, C08's exact case for short "
+                 "literals) and is evaluated by the driver on the text the crate printed for every generated float",
+                 "io::Write / io::Read deliver bytes in order (Vec writer, chunked reader)"],
+    partial=["typed clause (c04_typed): the typed text deserializer now has a Lean model (SJ/Model/Typed.lean, validated under C16 / C10 / "
+             "C13 / C09) but typed SERIALISATION of derived types has none, so no typed round-trip theorem is stated; the clause is "
+             "carried by the correspondence run (op rtt: derived types through the real crate, model = echo). The value-level piece "
+             "that exists: c16_text_agrees_partial (from_str::<T>(to_string(v)) = from_value::<T>(v) on the scalar / sequence fragment)",
+             "floats: c04_value takes the hypothesis FloatsRoundTrip cfg ext v (for every Float in v, parsing the text ryu prints gives that "
+             "Float back); it is discharged by C07 (float_roundtrip) / C08 (short literals), not here; c04_value_nofloat and c04_value_ap "
+             "need no such hypothesis",
+             "c04_reparse: serialise-then-parse of a parsed value gives it back under the same float hypothesis FloatsRoundTrip (none "
+             "under arbitrary_precision: c04_reparse_ap); that parsed values are well-formed is now hypothesis-free (c04_wf_of_parse)"],
+    technique="Lean 4 theorems obtained by composing the Value fragment of C03 (serializer output = one RFC 8259 value with syntax tree "
+              "cstOf(image); re-proved layout-independently: the extracted formatter literals need only be their structural character plus "
+              "JSON whitespace, so a harmless change of the pretty layout alarms C03 but not C04) with C01 "
+              "completeness (derivable text meeting the side conditions is accepted with value canonM) and a structural induction showing "
+              "canonM(cstOf(image v)) = v for every well-formed Value; differential run of the composed models against the crate's own "
+              "round trips; typed data by differential round trips of a zoo of derived types",
+    level_text="Machine-checked: c04_value / c04_value_pretty (for every build, source, well-formed Value v and whitespace indent: the model "
+               "serializer's output parses back to exactly v, given that the float printer/parser pair returns the floats of v), "
+               "c04_value_nofloat and c04_value_ap (no float hypothesis), c04_value_all_floats (global float hypothesis), with each clause "
+               "of the representation invariant shown necessary by a counterexample; c04_wf_of_parse (whatever the parser returns, from any "
+               "source in any build, satisfies the representation invariant — for &str given that the input is valid UTF-8; the finiteness "
+               "of parsed floats is the theorem c04_parsed_floats_finite, from C08's c08_finite_signed through the parser link for the "
+               "default build and from roundNE64's range for float_roundtrip), hence c04_reparse / c04_reparse_ap (serialise-then-parse "
+               "of any parsed value gives it back, across sources and formatters). The crate's to_string/to_vec/to_writer(+pretty) "
+               "followed by from_str/from_slice/from_reader is run on generated Values and compared both with the original and with the "
+               "Lean round trip; typed data (derived types covering the serde data model) is round-tripped through the crate.",
+    level_note="Trusted: Lean kernel + 3 standard axioms; extract.py; harness/driver; the serializer and parser models (tied by C03 and "
+               "C01/C02 correspondence); itoa/ryu as parameters. Partial: typed clause by correspondence only; the float step of the round trip "
+               "(printed text reads back as the same double) is a named hypothesis (C07/C08); finiteness of parsed floats is proved.",
 )
 
 PROPS["C07"] = dict(
